@@ -440,6 +440,84 @@ fn validate_level(req: &J) -> J {
     json!({"typechecks": plain.validation_passed(), "passes_at_level": passes})
 }
 
+/// schema conformance of entities and of a request through every public entry point that takes a schema.
+/// in: {schema: cedarschema text, entities: JSON array (optional), request: {principal, action, resource, context: JSON object} (optional)}
+/// out: {entities: {entry point: "ok" | error text}, request: {entry point: "ok" | error text}}
+fn conformance(req: &J) -> J {
+    use cedar_policy::{Context, Entity, EntityUid, Schema};
+    let (schema, _) = match Schema::from_cedarschema_str(req["schema"].as_str().unwrap_or("")) {
+        Ok(s) => s,
+        Err(e) => return json!({"input_error": format!("schema: {e}")}),
+    };
+    let mut out = serde_json::Map::new();
+    fn show<T, E: std::fmt::Display>(r: Result<T, E>) -> J {
+        match r {
+            Ok(_) => json!("ok"),
+            Err(e) => json!(format!("error: {e}")),
+        }
+    }
+    if let Some(ents) = req.get("entities") {
+        let mut m = serde_json::Map::new();
+        let text = ents.to_string();
+        m.insert("Entities::from_json_str".into(), show(Entities::from_json_str(&text, Some(&schema))));
+        m.insert("Entities::from_json_value".into(), show(Entities::from_json_value(ents.clone(), Some(&schema))));
+        m.insert("Entities::add_entities_from_json_str".into(), show(Entities::empty().add_entities_from_json_str(&text, Some(&schema))));
+        // schema-less parse (explicit forms only), then the entry points that take already-built entities
+        match Entities::from_json_value(ents.clone(), None) {
+            Ok(plain) => {
+                let list: Vec<Entity> = plain.iter().cloned().collect();
+                m.insert("Entities::from_entities".into(), show(Entities::from_entities(list.clone(), Some(&schema))));
+                m.insert("Entities::add_entities".into(), show(Entities::empty().add_entities(list.clone(), Some(&schema))));
+                m.insert("Entities::upsert_entities".into(), show(Entities::empty().upsert_entities(list.clone(), Some(&schema))));
+            }
+            Err(e) => {
+                m.insert("schemaless_parse".into(), json!(format!("error: {e}")));
+            }
+        }
+        if let Some(arr) = ents.as_array() {
+            if arr.len() == 1 {
+                m.insert("Entity::from_json_value".into(), show(Entity::from_json_value(arr[0].clone(), Some(&schema))));
+            }
+        }
+        out.insert("entities".into(), J::Object(m));
+    }
+    if let Some(r) = req.get("request") {
+        let mut m = serde_json::Map::new();
+        let p = EntityUid::from_str(r["principal"].as_str().unwrap_or(""));
+        let a = EntityUid::from_str(r["action"].as_str().unwrap_or(""));
+        let rs = EntityUid::from_str(r["resource"].as_str().unwrap_or(""));
+        match (p, a, rs) {
+            (Ok(p), Ok(a), Ok(rs)) => {
+                let cj = r.get("context").cloned().unwrap_or(json!({}));
+                // context built without the schema (explicit forms), validated by Request::new
+                match Context::from_json_value(cj.clone(), None) {
+                    Ok(c) => {
+                        m.insert("Request::new".into(), show(Request::new(p.clone(), a.clone(), rs.clone(), c.clone(), Some(&schema))));
+                        m.insert("RequestBuilder".into(), show(Request::builder().principal(p.clone()).action(a.clone()).resource(rs.clone()).context(c).schema(&schema).build()));
+                    }
+                    Err(e) => {
+                        m.insert("schemaless_context".into(), json!(format!("error: {e}")));
+                    }
+                }
+                // context built with the schema
+                match Context::from_json_value(cj, Some((&schema, &a))) {
+                    Ok(c) => {
+                        m.insert("Context::from_json_value+Request::new".into(), show(Request::new(p, a, rs, c, Some(&schema))));
+                    }
+                    Err(e) => {
+                        m.insert("Context::from_json_value+Request::new".into(), json!(format!("error: {e}")));
+                    }
+                }
+            }
+            _ => {
+                m.insert("input_error".into(), json!("bad uid"));
+            }
+        }
+        out.insert("request".into(), J::Object(m));
+    }
+    J::Object(out)
+}
+
 fn handle(req: &J) -> J {
     match req["op"].as_str().unwrap_or("") {
         "eval" => eval(req),
@@ -449,6 +527,7 @@ fn handle(req: &J) -> J {
         "policyset_ops" => policyset_ops(req),
         "peval" => peval(req),
         "validate_level" => validate_level(req),
+        "conformance" => conformance(req),
         other => json!({"unknown_op": other}),
     }
 }
